@@ -7,6 +7,7 @@ CONSTANTS
   MaxUmi = 2
   Indexes = {"single", "dual", "empty"}
   Limit = 60
+  Shapes = {"r", "rr", "rn", "nr"}
   RequireSafe = TRUE
   Variant = "design"
 INVARIANT Inv_C04_QTotal
